@@ -417,7 +417,7 @@ PANICKY = re.compile(
     r"(Option::<T>::(unwrap|expect)$)|(Result::<T, E>::(unwrap|expect|unwrap_err|expect_err)$)|(^core::panicking::)|(^std::rt::(begin_panic|panic))"
     r"|(panic::resume_unwind$)|(panic::panic_any$)|(process::(abort|exit)$)|(ops::Index::index$)|(ops::IndexMut::index_mut$)|(::from_static$)"
     r"|(slice::<impl \[T\]>::(split_at|split_at_mut|copy_from_slice|clone_from_slice|swap)$)|(Vec::<T, A>::(remove|swap_remove|insert|split_off|drain)$)"
-    r"|(String::(remove|insert|insert_str|split_off|drain|replace_range)$)|(RefCell::<T>::(borrow|borrow_mut)$)"
+    r"|(String::(remove|insert|insert_str|split_off|drain|replace_range|truncate)$)|(RefCell::<T>::(borrow|borrow_mut)$)"
     r"|(Bytes(Mut)?::(split_to|split_off|slice|advance)$)|(Buf::(advance|copy_to_bytes)$)|(::unwrap_unchecked$)|(hint::unreachable_unchecked$)")
 PANIC_KINDS_TEXT = ("calls to Option/Result unwrap/expect/unwrap_err/expect_err, core::panicking::* (panic!, assert!, unreachable!, unimplemented!, todo!), "
                     "resume_unwind, panic_any, process::abort/exit, Index/IndexMut::index, *::from_static, panicking slice/Vec/String/Bytes/RefCell methods, "
